@@ -158,6 +158,8 @@ def main():
             "poloidal_spacing_method": method,
             "target_all_poloidal_spacing_length": float(L * 10 ** rng.uniform(-1.5, 1.0)),
             "xpoint_poloidal_spacing_length": float(L * 10 ** rng.uniform(-2.0, 0.5)),
+            "nonorthogonal_target_all_poloidal_spacing_length": float(L * 10 ** rng.uniform(-1.0, 0.7)),
+            "nonorthogonal_xpoint_poloidal_spacing_length": float(L * 10 ** rng.uniform(-1.0, 0.7)),
             "N_norm_prefactor": float(rng.choice([1.0, 0.5, 2.0])),
         }
         nexec += 1
@@ -179,6 +181,37 @@ def main():
         p = {"kind": kind, "guards": guards, "ny": ny, "L": L, **st}
         acc.add("getSfuncFixedSpacing: increasing on the used indices incl. guard range (or refused)", cls, 0.0 if np.all(np.diff(v) >= 0) else 1.0, 0.0, where=p)
         acc.add("getSfuncFixedSpacing: strictly increasing between the targets", cls, 0.0 if np.all(np.diff(f(np.arange(0.0, npts))) > 0) else 1.0, 0.0, where=p)
+        # the end of each region kind is fed by the option documented for it: a wall end by the
+        # target spacing length, an X-point end by the X-point spacing length (sqrt: as the
+        # coefficient of the 1/sqrt term; monotonic: as the end gradient, non-orthogonal variants)
+        Nn = st["N_norm_prefactor"] * 3 * ny
+        N = float(npts - 1)
+        h = 1e-3
+        mean = L / (N / Nn)
+        if method == "monotonic":
+            for end, x0, side in (("lower", 0.0, +1), ("upper", N, -1)):
+                at_wall = kind.split(".")[0 if end == "lower" else 1] == "wall"
+                want = st["nonorthogonal_target_all_poloidal_spacing_length"] if at_wall else st["nonorthogonal_xpoint_poloidal_spacing_length"]
+                g = fd1(f, x0, h, side) * Nn
+                acc.add("getSfuncFixedSpacing(monotonic): %s end gradient = the option that feeds that end" % end, cls, abs(g / want - 1.0), 1e-3, where=dict(p, end=end, want=want, got=g), sig="%s end of a %s region gets %.4g instead of %.4g" % (end, kind, g, want))
+        elif method == "sqrt":
+            for end, x0, side in (("lower", 0.0, +1), ("upper", N, -1)):
+                at_wall = kind.split(".")[0 if end == "lower" else 1] == "wall"
+                a_want = 0.0 if at_wall else st["xpoint_poloidal_spacing_length"]
+                b_want = st["target_all_poloidal_spacing_length"] if at_wall else 0.0
+                dlt = 1e-6
+                # s ~ s(x0) +- [2 a sqrt(d/N_norm) + b d/N_norm] at distance d from the end
+                dv = abs(float(f(np.array(x0 + side * dlt))) - float(f(np.array(x0))))
+                a_got = (dv - b_want * dlt / Nn) / (2 * np.sqrt(dlt / Nn))
+                acc.add("getSfuncFixedSpacing(sqrt): %s end sqrt coefficient = the option that feeds that end" % end, cls, abs(a_got - a_want) / max(a_want, mean * np.sqrt(N / Nn)), 2e-3, where=dict(p, end=end, want=a_want, got=a_got), sig="%s end of a %s region: sqrt coefficient %.4g instead of %.4g" % (end, kind, a_got, a_want))
+                if at_wall:
+
+                    def reg(x, a=a_want):
+                        return f(np.asarray(x, float).copy())
+
+                    g = fd1(reg, x0, h, side) * Nn
+                    # the far end's sqrt term contributes a finite gradient here only through d, already in b
+                    acc.add("getSfuncFixedSpacing(sqrt): wall end gradient = target spacing length", cls, abs(g - b_want) / max(b_want, mean), 2e-3, where=dict(p, end=end, want=b_want, got=g))
         if np.any(np.diff(v) == 0):
             refused[cls + ":saturated guard cells (zero width; refused later by the hy>0 guard)"] = refused.get(cls + ":saturated guard cells (zero width; refused later by the hy>0 guard)", 0) + 1
         acc.add("getSfuncFixedSpacing: s(0)=0", cls, abs(float(f(np.array(0.0)))) / L, 1e-9, where=p)
